@@ -123,9 +123,11 @@ impl Tunnel {
             let update_metrics = {
                 let metrics = context.metrics.clone();
                 let protocol = self.downstream.protocol();
+                // inbound traffic is what clients upload (client -> destination),
+                // outbound traffic is what they download, see METRICS.md
                 move |direction, n| match direction {
-                    pipe::SimplexDirection::Incoming => metrics.add_inbound_bytes(protocol, n),
-                    pipe::SimplexDirection::Outgoing => metrics.add_outbound_bytes(protocol, n),
+                    pipe::SimplexDirection::Incoming => metrics.add_outbound_bytes(protocol, n),
+                    pipe::SimplexDirection::Outgoing => metrics.add_inbound_bytes(protocol, n),
                 }
             };
 
